@@ -69,10 +69,26 @@ def tables(run, m):
             exp[c] = i
         for c, v in extra.items():
             exp[c] = v
-        got = [signed32(v) for v in dec]
-        bad = [i for i in range(256) if i >= len(got) or got[i] != exp[i]]
-        run.ob('R14.1', nm, not bad, 'inverse of the encode table, every other byte rejected' if not bad else
-               'entry 0x%02X is %s, expected %d' % (bad[0], got[bad[0]] if bad[0] < len(got) else 'missing', exp[bad[0]]))
+        gname = gdh if nm == 'hex_values' else gdb
+        mt_ = re.match(r'\[(\d+) x i(\d+)\]', m.globals.get(gname, {}).get('ty', ''))
+        ebits = int(mt_.group(2)) if mt_ else 32
+        if ebits == 32 and len(dec) == 256:
+            got = [signed32(v) for v in dec]
+            bad = [i for i in range(256) if got[i] != exp[i]]
+            run.ob('R14.1', nm, not bad, 'inverse of the encode table, every other byte rejected' if not bad else
+                   'entry 0x%02X is %s, expected %d' % (bad[0], got[bad[0]], exp[bad[0]]))
+            continue
+        # another form of the table (narrower elements, fewer entries behind a range guard): whether an element is read as a signed
+        # or an unsigned value, and what answers for the units the table does not cover, is decided where the table is used (the
+        # acceptance classes and lookup bounds of C15, the group values of R14.4) - here only an entry that is wrong under either
+        # reading is a finding
+        got_u = [v % (1 << ebits) for v in dec]
+        got_s = [v - (1 << ebits) if v >= (1 << (ebits - 1)) else v for v in got_u]
+        bad = [i for i in range(min(256, len(dec))) if got_u[i] != exp[i] and got_s[i] != exp[i]]
+        run.ob('R14.1', nm, False if bad else None,
+               ('entry 0x%02X is %d, expected %d' % (bad[0], got_s[bad[0]], exp[bad[0]])) if bad else
+               'a table of %d entries of %d bits: every entry present is the inverse of the encode table under a signed or an unsigned reading; '
+               'which reading applies and what covers the other units is decided where the table is used' % (len(dec), ebits))
     return n, dict(hex_chars=gh, b64_chars=gb, hex_values=gdh, b64_values=gdb)
 
 
